@@ -501,7 +501,6 @@ func c09CornerFamily(r *ev.Run, handle func(b *board.Board, p *refchess.Pos)) in
 	return n.Load() * 2
 }
 
-
 // c09ParalysisFamily: Black king h8, own pawn h7, white pawn h6, white knight e7 (the king cannot move); one black
 // man X of any kind on any square, one white man Y of any kind on any square, the white king on any square; Black
 // to move and not in check. Mirrored for White.
